@@ -288,9 +288,9 @@ def sampling(tier, rng, rep):
                     continue
                 W, Winv = res
                 D = W.T @ B @ W
-                if np.max(np.abs(D - np.diag(np.diag(D)))) > 1e-8 or np.max(np.abs(np.abs(np.diag(D)) - 1)) > 1e-8:
+                if not np.all(np.abs(D - np.diag(np.diag(D))) <= 1e-8) or not np.all(np.abs(np.abs(np.diag(D)) - 1) <= 1e-8):
                     rep.fail("diagonalize_form_diag_pm1", f"W^T B W = {np.round(D, 6).tolist()}", inp)
-                if np.max(np.abs(W @ Winv - np.eye(m))) > 1e-8:
+                if not np.all(np.abs(W @ Winv - np.eye(m)) <= 1e-8):
                     rep.fail("diagonalize_form_inverse", "W @ Winv != I", inp)
                 s = np.sign(np.round(np.diag(D)))
                 neg, pos = int((s < 0).sum()), int((s > 0).sum())
@@ -313,9 +313,9 @@ def sampling(tier, rng, rep):
             if K.shape != shape + (m, m - k):
                 rep.fail("kernel_dimension", f"{K.shape}", inp)
             else:
-                if np.max(np.abs(A @ K)) > 1e-9:
+                if not np.all(np.abs(A @ K) <= 1e-9):
                     rep.fail("kernel_annihilated", f"{np.max(np.abs(A @ K))}", inp)
-                if np.max(np.abs(np.swapaxes(K, -1, -2) @ K - np.eye(m - k))) > 1e-9:
+                if not np.all(np.abs(np.swapaxes(K, -1, -2) @ K - np.eye(m - k)) <= 1e-9):
                     rep.fail("kernel_orthonormal", "K^T K != I", inp)
             rep.case(key=("ker", t))
         # frame completion in batch, Minkowski form of dimension m
@@ -325,19 +325,19 @@ def sampling(tier, rng, rep):
         inp = {"X": X.tolist()}
         M = rep.attempt("find_isometry_runs", inp, lambda: utils.find_isometry(F, X.copy(), True))
         if M is not None:
-            if np.max(np.abs(M @ F @ np.swapaxes(M, -1, -2) - F)) > 1e-8:
+            if not np.all(np.abs(M @ F @ np.swapaxes(M, -1, -2) - F) <= 1e-8):
                 rep.fail("find_isometry_preserves_form", "M F M^T != F", inp)
             if np.any(np.linalg.det(M) <= 0):
                 rep.fail("find_isometry_oriented", "det <= 0", inp)
             cr = M[..., 0, :][..., :, None] * X[..., 0, :][..., None, :]
-            if np.max(np.abs(cr - np.swapaxes(cr, -1, -2))) > 1e-8:
+            if not np.all(np.abs(cr - np.swapaxes(cr, -1, -2)) <= 1e-8):
                 rep.fail("find_isometry_flag", "first row not parallel to the given vector", inp)
             rep.case(key=("iso", t))
         # definite isometry (QR)
         nv = rng.normal(size=(m,))
         Mq = rep.attempt("find_definite_isometry_runs", {"v": nv.tolist()}, lambda: utils.find_definite_isometry(nv.copy()))
         if Mq is not None:
-            if np.max(np.abs(Mq @ Mq.T - np.eye(m))) > 1e-9:
+            if not np.all(np.abs(Mq @ Mq.T - np.eye(m)) <= 1e-9):
                 rep.fail("find_definite_isometry_orthogonal", "not orthogonal", {"v": nv.tolist()})
             rep.case(key=("qr", t))
 
@@ -360,8 +360,37 @@ def arc_helpers_batches(tier, rng, rep):
             a = utils.short_arc(th.copy()); b = utils.right_to_left(th2.copy()); c = utils.arc_include(th2.copy(), ref.copy())
             for idx in np.ndindex(*shape):
                 ua = utils.short_arc(th[idx].copy()); ub = utils.right_to_left(th2[idx].copy()); uc = utils.arc_include(th2[idx].copy(), ref[idx])
-                if np.max(np.abs(a[idx] - ua)) > 0 or np.max(np.abs(b[idx] - ub)) > 0 or np.max(np.abs(c[idx] - uc)) > 0:
+                if not np.all(np.abs(a[idx] - ua) <= 0) or not np.all(np.abs(b[idx] - ub) <= 0) or not np.all(np.abs(c[idx] - uc) <= 0):
                     rep.fail("batch_row_equals_unit_result", f"row {idx}", inp); return
                 flipped += int(np.any(ub != th2[idx]))
         rep.attempt("arc_helpers_run", inp, body)
         rep.case(key=(t,), nontrivial=flipped >= 2, sample=inp if t == 0 else None)
+
+
+DIAG_Q = [dict(signs=s, order=o, reverse=r) for s in ((-1, 1), (1, 1), (-1, -1)) for o in ("signed", "minkowski") for r in (False, True)] + \
+         [dict(signs=s, order=o, reverse=False) for s in ((-1, 1, 1), (-1, -1, 1)) for o in ("signed", "minkowski")]
+DIAG_T = [dict(signs=s, order=o, reverse=True) for s in ((-1, 1, 1), (-1, -1, 1)) for o in ("signed", "minkowski")] + \
+         [dict(signs=(1, 1, 1), order="signed", reverse=False), dict(signs=(-1, -1, -1), order="minkowski", reverse=False)]
+
+
+@rcontract(P, "diagonalize_form", instances=DIAG_Q, thorough=DIAG_T, timeout=60.0, max_paths=40,
+           functions=[U + "diagonalize_form", U + "eigh", U + "construct_diagonal", U + "permute_along_axis", U + "conjugate", U + "zeros"])
+def diagonalize_form(ctx, signs, order, reverse):
+    """for EVERY non-degenerate symmetric form B of the given signature and every spectral decomposition numpy.linalg.eigh
+    may return for it: W^T B W is diagonal with entries +-1 in the requested order (negative first, or the rarer sign
+    first), and the second return value is the inverse of W"""
+    n = len(signs)
+    B, e, Umat = ctx.spectral_form('B', list(signs))
+    W, Winv = utils.diagonalize_form(np.array(B, copy=True), order_eigenvalues=order, reverse=reverse, with_inverse=True)
+    neg, pos = sum(1 for s_ in signs if s_ < 0), sum(1 for s_ in signs if s_ > 0)
+    if order == "signed":
+        want = [-1.0] * neg + [1.0] * pos
+    else:
+        want = [-1.0] * neg + [1.0] * pos if neg <= pos else [1.0] * pos + [-1.0] * neg
+    if reverse:
+        want = want[::-1]
+    ctx.ensure_eq('WtBW_is_diag_pm1_in_requested_order', W.T @ B @ W, np.diag(want), tol=1e-6)
+    ctx.ensure_eq('second_value_is_the_inverse', W @ Winv, np.identity(n), tol=1e-6)
+    ctx.ensure_eq('second_value_is_the_inverse_left', Winv @ W, np.identity(n), tol=1e-6)
+    W2 = utils.diagonalize_form(np.array(B, copy=True), order_eigenvalues=order, reverse=reverse, with_inverse=False)
+    ctx.ensure_eq('without_inverse_same_W', W2, W, tol=1e-6)
